@@ -285,6 +285,28 @@ func runC06(r *rt.Run) {
 		})
 		w.States += n
 	})
+	// large documents, as they are
+	large := docgen.LargeDocs()
+	r.Bounds["large_documents"] = len(large)
+	r.ParFor(len(large), func(i int, w *rt.Worker) {
+		w.States++
+		w.Nontriv++
+		for _, os := range sets {
+			w.Evals++
+			c06One(large[i], os, func(class string, c rt.Case, exp, got string) {
+				c.Doc = fmt.Sprintf("large#%d", i) // the text itself is regenerated deterministically
+				c.X = map[string]string{"len": fmt.Sprint(len(large[i]))}
+				w.Fail(class+"-large", func() (rt.Case, string, string) { return c, trunc(exp), trunc(got) })
+			})
+		}
+	})
 	r.Sample(rt.Case{Kind: "doc", Op: "roundtrip", Doc: seeds[len(seeds)-5], Cfg: "default"})
 	r.Sample(rt.Case{Kind: "doc", Op: "roundtrip", Doc: seeds[30], Cfg: optAlt.Name})
+}
+
+func trunc(s string) string {
+	if len(s) > 400 {
+		return s[:200] + " ... " + s[len(s)-200:]
+	}
+	return s
 }
